@@ -124,7 +124,7 @@ def full_config(rng, nservers=1, nodeid=None, minimal=False, drop=(), tmrnum=Non
         # records lacking single sub-entries (inhibit / event time, transmission type, identity fields, mapping slots behind the count):
         # whatever the stack reads from such a record, it may not work with a value it never got
         optional = [(0x1800 + c, s_) for c in range(5) for s_ in (2, 3, 5)] + [(0x1400 + c, 2) for c in range(5)] + [(0x1018, s_) for s_ in (2, 3, 4)]
-        optional += [(0x1A00 + c, s_) for c in range(4) for s_ in range(5, 9)] + [(0x1600 + c, s_) for c in range(4) for s_ in range(5, 9)] + [(0x1280, 3), (0x1200, 2)]
+        optional += [(0x1A00 + c, s_) for c in range(4) for s_ in range(5, 9)] + [(0x1600 + c, s_) for c in range(4) for s_ in range(5, 9)] + [(0x1280, 3), (0x1200, 2)] + [(0x1016, s_) for s_ in (1, 2, 3)]
         gone = set(k for k in optional if rng.random() < 0.35)
         cfg.objs = [o for o in cfg.objs if (o.idx, o.sub) not in gone]
     cfg.finalize()
